@@ -76,6 +76,26 @@ func ruleCloseOnce() check.Rule {
 							if pc, ok := m.Parent(sc.Pkg, lit).(*ast.CallExpr); ok && model.IsMethod(model.Callee(info, pc), "sync", "Once", "Do") {
 								inOnce = true
 							}
+							// the literal is bound to a local closure whose every use is the argument of a sync.Once.Do
+							if as, ok := m.Parent(sc.Pkg, lit).(*ast.AssignStmt); ok && len(as.Lhs) == 1 {
+								if vid, ok := as.Lhs[0].(*ast.Ident); ok {
+									if v := objOf(info, vid); v != nil {
+										uses, onceUses := 0, 0
+										ast.Inspect(sc.Lit.Body, func(y ast.Node) bool {
+											if id, ok := y.(*ast.Ident); ok && info.Uses[id] == v {
+												uses++
+												if pc, ok := m.Parent(sc.Pkg, id).(*ast.CallExpr); ok && model.IsMethod(model.Callee(info, pc), "sync", "Once", "Do") && len(pc.Args) == 1 && ast.Unparen(pc.Args[0]) == ast.Expr(id) {
+													onceUses++
+												}
+											}
+											return true
+										})
+										if uses > 0 && uses == onceUses {
+											inOnce = true
+										}
+									}
+								}
+							}
 						}
 					}
 					sites[ch] = append(sites[ch], site{call, inOnce})
